@@ -1927,3 +1927,7 @@ def run(ctx, shard):
         ctx.sample({'repo-tests': [t[0] for t in todo], 'note': 'run with the C12 contracts attached'})
     else:
         raise ValueError(f'unknown shard {name}')
+
+
+# thorough tier: every random shard is run this many times with independent random streams (see vmon/runner.py get_shards)
+THOROUGH_REPEAT = 4
